@@ -5,9 +5,6 @@ Local Open Scope Z_scope.
 
 (** * divideFundsEvenly *)
 
-(** Share of receiver [j] when the quotient is [q] and the remainder [r]. *)
-Definition share_of (q r j : Z) : Z := if j <? r then q + 1 else q.
-
 (** Number of callback invocations. *)
 Definition calls_of (q r : Z) (fuel : nat) : nat :=
   if q =? 0 then Nat.min (Z.to_nat r) fuel else fuel.
@@ -64,6 +61,21 @@ Proof.
   rewrite divide_loop_closed; [reflexivity|lia|lia|].
   intros Hpos. assert (amount / n < amount \/ amount / n + 1 < w64) as [H|H]; [|lia|lia].
   pose proof (Z.div_mod amount n ltac:(lia)) as Hdm. left. nia.
+Qed.
+
+Lemma divide_closed_spec amount n :
+  0 <= amount -> 1 <= n -> divide_closed amount n = divide_spec amount n.
+Proof.
+  intros Ha Hn. unfold divide_closed, divide_spec. cbv zeta. f_equal. f_equal.
+  assert (Hr : 0 <= amount mod n < n) by (apply Z.mod_pos_bound; lia).
+  unfold calls_of. destruct (amount / n =? 0); lia.
+Qed.
+
+Lemma divide_funds_closed amount n :
+  0 <= amount < w64 -> 1 <= n < w64 ->
+  divide_funds amount n = Halt (divide_closed amount n).
+Proof.
+  intros Ha Hn. rewrite divide_closed_spec by lia. apply divide_funds_spec; assumption.
 Qed.
 
 Definition zsum (l : list Z) : Z := fold_right Z.add 0 l.
